@@ -375,6 +375,23 @@ void MEDDLY::pregen_relation::finalize(splittingOption split)
       delete [] old_events;
 #endif
     }
+    //
+    // Saturation expects the relation kept for level k to be rooted
+    // at level k.  In an identity-reduced forest, the unions (when
+    // events are added) and differences (when splitting) can leave
+    // a relation that is the identity at level k, rooted below it.
+    // Such a relation belongs to the level of its root; the identity
+    // itself (a terminal) fires nothing.
+    //
+    if (mxdF->isIdentityReduced()) {
+      for (unsigned k=K; k; k--) {
+        if (0==events[k].getNode()) continue;
+        const unsigned below = unsigned(ABS(events[k].getLevel()));
+        if (below >= k) continue;
+        if (below) apply(UNION, events[below], events[k], events[below]);
+        events[k].set(0);
+      }
+    }
     return;
   }
 
